@@ -264,12 +264,14 @@ def gen_project(d, vast, state, pep_shaped, max_files=5, max_patterns=4, unicode
     file_pat = {name: list(idx) for name, idx in entries}
     if use_glob:
         # two files share a glob entry (its patterns must occur in both); one of them keeps an explicit entry too
-        g1, g2 = "glob/one.txt", "glob/two.txt"
+        # the second file: a plain sibling, a dot-file (pathlib's * matches it), or a file further down under a ** glob
+        gkey, g1, g2 = d.choice([("glob/*.txt", "glob/one.txt", "glob/two.txt"), ("glob/*.txt", "glob/one.txt", "glob/two.txt"),
+                                 ("glob/*.txt", "glob/one.txt", "glob/.two.txt"), ("glob/**/*.txt", "glob/one.txt", "glob/sub/deep/two.txt")])
         n = d.int(1, 2)
         pats = gen_patterns(d, vast, n, len(patterns), pep_shaped, allow_partial)
         gidx = list(range(len(patterns), len(patterns) + n))
         patterns += pats
-        entries.insert(d.int(0, len(entries)), ["glob/*.txt", gidx])
+        entries.insert(d.int(0, len(entries)), [gkey, gidx])
         file_pat[g1] = list(gidx)
         file_pat[g2] = list(gidx)
         if d.bool():
